@@ -23,6 +23,7 @@ LEVEL_NOTE = 'Trusted: model.premerge/merge (calibrated on 9 append/extend/prev 
 RULE = ('seeded base + operator stages generated against the model state; non-trivial = at least one operator acts on an existing target; distinct = hash of texts')
 ASSUMPTIONS = ['operators are applied in document order against the accumulated tree, then the stage is merged']
 TIERS = {'quick': {'cases': 3000, 'budget': 60}, 'thorough': {'cases': 100000, 'budget': 900}}
+ODD_KEYS = ['007', '1_000', '0x10', 'null', 'true', '0o7', '1e3', 'No', '010']
 POOL = ['a', 'b', 'c', 'd', '_u', 'k1', 'exp-1', 'a.b', 'x y', 'extend']        # incl. keys that are not identifier-like, and one named like a list method
 
 
@@ -101,6 +102,14 @@ def gen_case(rng, tier):
                     q = rng.choice(paths)
                     dst = tuple(q[:rng.randrange(0, len(q) + 1)]) + ('in%d' % rng.randrange(2),)
                 put(doc, dst, SP('prev', path=gen.path_str(src) or 'nope.x'))
+        if rng.random() < 0.12:
+            # a top-level string key that YAML would read as another scalar were it not quoted ('007', '1_000', '0x10', 'null', ..); the path
+            # after !prev is text, written plain: it names that key as it is spelled (round 9, C16-i)
+            k = rng.choice(ODD_KEYS)
+            if all(it[0] != k for d in docs for it in d['items']) and all(it[0] != k for it in doc['items']):
+                docs[0]['items'].append([k, rng.choice([L([S(mk.next(rng, 's')), S(mk.next(rng, 's'))]), M([['x', L([S(mk.next(rng, 's'))])], ['y', S(mk.next(rng, 's'))]])])])
+                put(doc, ('odd%d' % rng.randrange(2),), SP('prev', path=k, plain=True))
+                n_real += 1
         if rng.random() < 0.3:
             # ordinary content next to the operators
             for k, c in gen.rand_doc(rng, 2, kinds=('s',), pool_s=POOL, hostile=False, marker=mk)['items']:
